@@ -201,7 +201,7 @@ def valid_device(spec):
 def currents(draw, dspec, current_units, kinds=("dict", "callable"), allow_zero=True, jmax=0.35):
     """Balanced terminal currents: integer multiples of a decimal quantum, exact sum zero."""
     terms = dspec["terminals"]
-    if not terms or (allow_zero and draw(st.integers(0, 5)) == 0):
+    if len(terms) < 2 or (allow_zero and draw(st.integers(0, 5)) == 0):
         return None
     lay = dspec["layer"]
     sc = orc.si_scales(lay["xi"], lay["lam"], lay["d"], dspec["lu"])
